@@ -222,6 +222,7 @@ def run(ctx):
     width_into_bytepos(ctx, "R03-e")
     relayout_keeps_lines(ctx, "R03-f")
     offset_base_agreement(ctx, "R03-g")
+    use_tree_comment_carrier(ctx, "R03-h")
     D = r.rule("R03-d", "lists::write_list (with the closures it owns) reads every comment-bearing field of ListItem: "
                         "pre_comment, pre_comment_style, post_comment, new_lines")
     wl = p.named("write_list", within="rustfmt_nightly::lists")
@@ -386,3 +387,53 @@ def offset_base_agreement(ctx, rid):
                             "or a span ends inside a multi-byte character" % (bkey[-80:], sorted(x[-80:] for x in starts)[:2]),
                             [c.loc()])
     r.floor(rid, n, 12, "BytePos offsets derived from snippet text")
+
+
+def use_tree_comment_carrier(ctx, rid):
+    """R03-h: a UseTree that carries a comment is never replaced by trees built without it"""
+    from common import bool_branches, edge_dominates
+    p, r = ctx.p, ctx.r
+    r.rule(rid, "imports: a function that receives a UseTree and constructs UseTree values with `list_item: None` (the field that "
+                "carries the comments attached to a `use` item) does so only where UseTree::contains_comment / has_comment on the "
+                "received tree has answered false — otherwise the comment between two imports is silently dropped when the tree "
+                "is split or rebuilt")
+    n = 0
+    for f in p.by_crate["rustfmt_nightly"]:
+        if "imports::" not in f.id or f.argc < 1 or "imports::UseTree" not in f.locals[1]:
+            continue
+        adt = next((a for k, a in p.adts.items() if k.endswith("imports::UseTree")), None)
+        if adt is None:
+            r.undecidable(rid, "ADT imports::UseTree not found")
+            return
+        names = [nm for nm, t in adt["variants"][0]["fields"]]
+        for bb, i, s in f.stmts():
+            if not (s[0] == "=" and s[2][0] == "agg" and isinstance(s[2][1], list) and s[2][1][0] == "adt"
+                    and s[2][1][1].endswith("imports::UseTree")):
+                continue
+            li = s[2][2][names.index("list_item")]
+            is_none = False
+            if li[0] != "k" and not li[1][1]:
+                d = f.single_def(li[1][0])
+                is_none = d is not None and d[1] == "assign" and d[2][2][0] == "agg" and isinstance(d[2][2][1], list) \
+                    and d[2][2][1][1].endswith("option::Option") and d[2][2][1][2] == "None"
+            if not is_none:
+                continue
+            n += 1
+            guarded = False
+            for g in f.calls():
+                if not (g.name.endswith("UseTree::contains_comment") or g.name.endswith("UseTree::has_comment")) or not g.args or g.args[0][0] == "k":
+                    continue
+                dd = f.derived_from(g.args[0][1][0])
+                if 1 not in dd["locals"] and 1 not in dd["args"]:
+                    continue
+                for (sw, t_true, t_false) in bool_branches(f, g.dest[0]):
+                    if edge_dominates(f, (sw, t_false), bb):
+                        guarded = True
+            key = "%s builds comment-less UseTree values" % short(f.id)
+            r.instance(rid, key, "ok" if guarded else "violation", "%s:%d" % (f.file, s[3]))
+            if not guarded:
+                r.violation(rid, "%s drops the comment carried by the tree it rebuilds" % short(f.id),
+                            "UseTree values with `list_item: None` are built from the received tree on a path where "
+                            "contains_comment() on it has not answered false: a comment attached to the `use` item (trailing, or "
+                            "on the line above) disappears from the output", ["%s:%d" % (f.file, s[3])])
+    r.floor(rid, n, 1, "comment-less UseTree constructions from a received tree")
